@@ -273,6 +273,33 @@ def r3(ctx: Ctx):
              f'the row index is advanced {len(all_incs)} time(s) in the row loop'
              f' ({len(incs)} at row level): a row that fans out to several'
              ' slice values (or to none) shifts every later mask', node=rl)
+  # every slice value a row yields is recorded (no `continue`/skip on the value)
+  g_ = cfgm.cfg_of(fn.node)
+  inner = [nd for nd in g_.nodes if nd.kind == 'for_iter' and isinstance(nd.ast.iter, ast.Call)
+           and any(isinstance(a_, ast.Starred) for a_ in nd.ast.iter.args)
+           and not unparse(nd.ast.iter).startswith('zip(')]
+  if len(inner) != 1:
+    raise AnalysisError(f'{rule}: the loop over the slice values of a row was not found')
+  il = inner[0]
+  rec_ = lambda nd: any(isinstance(c, ast.Call) and isinstance(c.func, ast.Attribute) and c.func.attr == 'append'
+                        and isinstance(c.func.value, ast.Subscript) for x in cfgm.node_exprs(nd) for c in ast.walk(x))
+  skipped = None
+  for s_, lab in il.succ:
+    if lab != 'true':
+      continue
+    if rec_(s_):
+      continue
+    w_ = g_.must_pass(s_, [il], rec_, cfgm.only_normal)
+    if w_ is not None:
+      skipped = w_
+  if skipped is None:
+    ctx.ok(rule, fn, 'every slice value yielded for a row is recorded', il.ast)
+  else:
+    ctx.fail(rule, fn, '_slice_mask_fn: every yielded slice value is recorded',
+             'a path through the loop over a row\'s slice values goes on to the'
+             ' next value without recording the row for the current one:'
+             ' legitimate slice values (0, False, \'\', ...) are dropped and'
+             ' their slice keys never appear in the result', node=il.ast, witness=skipped[-6:])
   from mlmverif import pat
   NORM = 'if not isinstance($sv, tuple):\n  $sv = ($sv,)'
   norm_new = pat.has(fn.node, NORM, nested=True)
@@ -558,6 +585,10 @@ from mlmverif.selfcheck import B, OK  # noqa: E402
 _T = 'chainables/transform.py'
 _F = 'chainables/tree_fns.py'
 VARIANTS = [
+    B('falsy-slice-values-skipped', _F,
+      '        for slice_value in slice_fn(*row):\n',
+      '        for slice_value in slice_fn(*row):\n          if not slice_value:\n            continue\n',
+      'R-C02-3'),
     B('restricted-values-duck-typed', _F,
       '      within_values = tuple(map(tree.normalize_keys, within_values))',
       "      within_values = tuple(v if hasattr(v, '__contains__') else (v,) for v in within_values)",
